@@ -32,6 +32,8 @@ def shim_max(*args, **kw):
         if xs and _any_sym(xs):
             ys = _drop(xs, -_INF)
             return ys[0] if len(ys) == 1 else symx.smax(*ys)
+        if not xs:
+            raise symx.modelled(ValueError("max() iterable argument is empty"))
         return builtins.max(xs)
     if not kw and _any_sym(args):
         ys = _drop(args, -_INF)
@@ -45,6 +47,8 @@ def shim_min(*args, **kw):
         if xs and _any_sym(xs):
             ys = _drop(xs, _INF)
             return ys[0] if len(ys) == 1 else symx.smin(*ys)
+        if not xs:
+            raise symx.modelled(ValueError("min() iterable argument is empty"))
         return builtins.min(xs)
     if not kw and _any_sym(args):
         ys = _drop(args, _INF)
